@@ -73,7 +73,12 @@ def run(prog, rep, tier, repo):
             if scale != xr:
                 s, scale = scale, s
             if scale != xr:
-                problems.append('the sum is not scaled by the half-length 0.5*(b-a)')
+                # a scale factor that is a component of a helper's result (`centre_and_half_width(a, b).1`) or a local is not read; a factor
+                # written out over a and b that is not 0.5*(b-a) is wrong
+                if any(tag(z) == 'call' and z[1] in pdb.bodies for fac in (rets[0][2], rets[0][3]) for z in subterms(fac) if tag(fac) != 'call' or short(fac[1]) != 'sum'):
+                    undec.append('the scale factor %s is not written over a and b in this body' % show(scale)[:40])
+                else:
+                    problems.append('the sum is not scaled by the half-length 0.5*(b-a)')
             if not (tag(s) == 'call' and short(s[1]) == 'sum' and tag(s[2][0]) == 'call' and short(s[2][0][1]) == 'map'):
                 undec.append('not a sum over a mapped range')
             else:
